@@ -31,6 +31,20 @@ Proof.
   rewrite forallb_forall in H. specialize (H _ Hg). apply negb_true_iff in H. exact H.
 Qed.
 
+Lemma psv_socket_ok : forall accept_fails, psv_socket accept_fails = ROk.
+Proof. destruct accept_fails; reflexivity. Qed.
+
+(* exactly one Done per socket, whatever Accept does: the counter ends at 0 *)
+Lemma psv_counter : forall accept_fails, wg_run 1 (psv_goroutine accept_fails) = Some 0.
+Proof. destruct accept_fails; reflexivity. Qed.
+
+(* and one more Done, wherever it is put into the goroutine, is the panic *)
+Lemma wg_extra_done_panics : forall accept_fails k,
+  wg_run 1 (firstn k (psv_goroutine accept_fails) ++ WDone :: skipn k (psv_goroutine accept_fails)) = None.
+Proof.
+  intros af k. destruct af; do 7 (destruct k as [|k]; [reflexivity|]); reflexivity.
+Qed.
+
 (* ------------------------------------------------------------------ *)
 (* 2. ssh-simulator env / exec loop (after 1603afd)                     *)
 
@@ -665,6 +679,7 @@ Lemma full_holds :
   (forall dgss sched, trun (t_init (map (tftp_thread false) dgss)) sched <> TFatal) /\
   (forall dg, cs_handle dg = ROk \/ cs_handle dg = RPanic 1) /\
   (forall segs, adb_handle segs = ROk \/ adb_handle segs = RPanic 2) /\
+  (forall accept_fails, psv_socket accept_fails = ROk) /\
   (forall dg s, snmp_first dg <> Some (RFatal s)) /\
   (forall dg fuel, wf_bytes dg = true -> snmp_first dg = None ->
      Forall (fun L => alloc_verdict L = 0%N) (lib_allocs fuel (snmp_buf dg))) /\
@@ -675,6 +690,7 @@ Lemma full_holds :
 Proof.
   split; [exact ssh_request_ok|]. split; [exact ssh_requests_ok|]. split; [exact vnc_handle_ok|].
   split; [exact tftp_no_schedule_fatal|]. split; [exact cs_never_fatal|]. split; [exact adb_never_fatal|].
+  split; [exact psv_socket_ok|].
   split; [exact snmp_never_fatal|]. split; [exact snmp_library_allocs_fine|].
   split; [exact ldap_never_fatal | exact ldap_library_allocs_fine].
 Qed.
